@@ -267,10 +267,14 @@ def rule_g(repo, chk):
     for h in hdr:
         for e, pol in []:
             pass
+    # the membership test on scope_node.type in create_context itself (its nested helpers excluded) that names funcdef: either spelling
+    # (`in` guarding the rule, `not in` leaving it early)
     for x in own_nodes(pc):
-        if isinstance(x, ast.If) and isinstance(x.test, ast.Compare) and norm(x.test.left) == 'scope_node.type' and isinstance(x.test.ops[0], ast.In) \
-                and any(isinstance(y, ast.Compare) and 'colon.start_pos' in norm(y) for y in ast.walk(x)):
-            kinds_pc.append(frozenset(e.value for e in x.test.comparators[0].elts if isinstance(e, ast.Constant)))
+        if isinstance(x, ast.Compare) and len(x.ops) == 1 and isinstance(x.ops[0], (ast.In, ast.NotIn)) and norm(x.left) == 'scope_node.type' \
+                and isinstance(x.comparators[0], (ast.Tuple, ast.List, ast.Set)):
+            ks = frozenset(e.value for e in x.comparators[0].elts if isinstance(e, ast.Constant))
+            if 'funcdef' in ks:
+                kinds_pc.append(ks)
     ok = bool(kinds_gp) and kinds_pc == kinds_gp
     chk.ob('C03.g', ok, pc, 'siblings agree on WHICH scopes have a header: create_context applies the `:` rule to the same node types as get_parent_scope',
            'create_context: %s, get_parent_scope: %s' % ([sorted(k) for k in kinds_pc], [sorted(k) for k in kinds_gp]), key='header-kinds')
